@@ -449,6 +449,11 @@ struct tagged_ops
     std::function<cursor_ret(char*, std::size_t, ipath)> named;
     std::function<void(char*, std::size_t, ipath, const bytes&)> tset; // scalars
 };
+// structure of a level, names only (for the record-mode driver)
+struct level_struct
+{
+    std::vector<std::string> leaves, groups, data;
+};
 struct visit_ops
 {
     // returns the cursor offset (relative to the message start) afterwards
@@ -460,6 +465,7 @@ struct registry
     std::map<std::string, member_ops> members;
     std::map<std::string, visit_ops> visits;
     std::map<std::string, tagged_ops> tagged;
+    std::map<std::string, level_struct> structs;
     std::map<std::string, leaf_ops> leaves;
     std::map<std::string, level_ops> levels;
     std::map<std::string, group_ops> groups;
@@ -512,6 +518,13 @@ struct reg_tagged
     reg_tagged(const char* k, tagged_ops o)
     {
         registry::get().tagged[k] = std::move(o);
+    }
+};
+struct reg_struct
+{
+    reg_struct(const char* k, level_struct o)
+    {
+        registry::get().structs[k] = std::move(o);
     }
 };
 struct reg_visit
@@ -604,6 +617,9 @@ void assign_data(D d, const bytes& b)
                             ::sbepp::visit_children(m, c, v);                 \
                             return c.pointer() - p;                           \
                         }})
+
+#define VH_REG_STRUCT(KEY, ...) \
+    static ::vh::reg_struct VH_CAT(vh_r_, __COUNTER__)(KEY, ::vh::level_struct __VA_ARGS__)
 
 #define VH_REG_LEVEL(KEY, M, LV)                                              \
     static ::vh::reg_level VH_CAT(vh_r_, __COUNTER__)(                        \
